@@ -82,7 +82,23 @@ inductive Qry where
   | iMap (ka kb id : Nat)         -- A := GetSymbol(<name ka>); B := GetSymbol(<name kb>); A.Eval(tx, a<id>), B.Eval(tx, a<id>) decoded; 9 = nil
   -- round 4: one compiled query object (explicit skip and limit) run by several read transactions at once
   | qShared (j : Nat)             -- QueryIdsC(tx, q_j), q_j = ast.Parse(things, c18SharedTexts[j]) parsed once and shared
+  -- round 5: set-index lookups with a values slice that several read transactions share (first answer element: 1 = the
+  -- caller's slice is unchanged after the call)
+  | fAll (j : Nat)                -- FindMatching(tx, rolesIndex, sharedValues[j])  and  IteratorMatchingAllOf(…)(tx, true) collected
+  | fAny (j : Nat)                -- FindMatchingAnyOf (sorted by the harness: map order)  and  IteratorMatchingAnyOf(…)(tx, true)
   deriving DecidableEq, Repr
+
+/-- the shared values slices of the harness (role numbers; deliberately not ascending, with a duplicate, empty, single) -/
+def sharedVals (j : Nat) : List Nat :=
+  match j with
+  | 0 => [2, 0]
+  | 1 => [1, 0]
+  | 2 => [2, 1, 0]
+  | 3 => [3, 0, 1]
+  | 4 => [4, 2, 0, 1]
+  | 5 => [1]
+  | 6 => [2, 0, 2]
+  | _ => []
 
 /-- the value the harness stores under nested map key number `k` for an entity of rank `r` (as "s<value>"):
     0 tags.site.name, 1 tags.site.zone, 2 tags.owner.name, 3 tags.a.b.c, 4 attrs.a.b.c, 5 attrs.a.x.c, 6 attrs.site.name,
@@ -159,6 +175,9 @@ def evalQ (q : Qry) (v : Ver) : List Nat :=
   | .qShared j =>
     if j == 12 then (((v.foldl (fun acc e => insertTop e acc) []).drop 1).take 3).map (·.id)   -- true sort by rank desc skip 1 limit 3
     else (v.filter (sharedPred j)).map (·.id)
+  | .fAll j =>
+    1 :: (if (sharedVals j).isEmpty then [] else (v.filter (fun e => (sharedVals j).all (e.roles.contains ·))).map (·.id))
+  | .fAny j => 1 :: (v.filter (fun e => (sharedVals j).any (e.roles.contains ·))).map (·.id)
   | .qMap k val => (v.filter (fun e => mapVal k e.rank == val)).map (·.id)
   | .iMap ka kb id => match findEnt id v with | some e => [mapVal ka e.rank, mapVal kb e.rank] | none => [9, 9]
 
